@@ -88,7 +88,10 @@ def boundary_workload(res, ctx, rng):
     """Values at the edges of their ranges, zeros where code might test truthiness, empty lists versus missing keys."""
     strings = logs.Strings(rng)
     empty = strings.idx('')
-    for sec in (0, 1, (1 << 31) - 1, 86399, 1600000000):
+    # ... and the instants around the daylight-saving transitions of the zones the shards run under (the hour that a local
+    # clock shows twice, the hour it skips): 2021 in the US Pacific zone and in New Zealand
+    dst = [t + d for t in (1636275600, 1615716000, 1617458400, 1632578400) for d in (-3600, -1800, -1, 0, 1, 1800, 3599, 3600)]
+    for sec in [0, 1, (1 << 31) - 1, 86399, 1600000000] + dst:
         for usec in (0, 1, 499999, 500000, 999999):
             raw = logs.gen_event(rng, strings, ())
             raw['ud'] = {'sec': sec, 'usec': usec}
@@ -286,12 +289,16 @@ def threaded_decodes(res, ctx, rng, n_threads=4, per_thread=120, rounds=2):
     import threading
     from pykdebugparser.os_log_event import OsLogEvent
     work = []
+    shared_seconds = [rng.randrange(1, 1 << 31) for _ in range(5)]
     for k in range(n_threads):
         strings = logs.Strings(rng)
         raws = []
         site_words = [logs.gen_ti(rng) for _ in range(5)]
         for i in range(per_thread):
             raw = logs.gen_event(rng, strings, rng.choice((['p', 'pid', 'ti'], ['ti', 'dm'], ['p', 'pid', 'ti', 'dm', 'send'])))
+            if i % 2:
+                # records of one burst carry the same second (and the other threads are decoding that second too)
+                raw['ud'] = dict(raw['ud'], sec=shared_seconds[(i // 2) % len(shared_seconds)])
             if 'ti' in raw and i % 3:
                 # neighbouring records of one call site carry the same identifier word; other threads carry other words
                 raw['ti'] = site_words[(i // 7) % len(site_words)]
@@ -377,7 +384,14 @@ def run(ctx):
     rng = ctx.rng
     subsets_workload(res, ctx, rng)
     if ctx.shard == 0:
-        boundary_workload(res, ctx, rng)
+        # the boundary instants (DST transitions of every zone among them) under EVERY process zone, not only this shard's
+        for z in ('UTC', 'PST8PDT,M3.2.0,M11.1.0', 'NZST-12NZDT,M9.5.0,M4.1.0/3', 'IST-5:30'):
+            os.environ['TZ'] = z
+            time.tzset()
+            boundary_workload(res, ctx, rng)
+            res.count('boundary_workloads_under_zone_' + z.split(',')[0])
+        os.environ['TZ'] = zone
+        time.tzset()
     dm_workload(res, ctx, rng)
     ti_workload(res, ctx, rng)
     alias_workload(res, ctx, rng)
